@@ -44,6 +44,8 @@ type sim struct {
 	frng  *core.Rng // fault stream
 	model bool      // refinement against refspec armed
 	steps bool      // ... including the step-wise transition checks (C01/C02)
+	gnode *gossipNode
+	curSlot uint64
 	step  int
 	stop  bool
 }
@@ -626,6 +628,9 @@ func run(cfg *Config, opt core.Options, res *core.Result) *sim {
 	if opt.Property == "C14" {
 		s.checkBuiltinConstants()
 	}
+	if opt.Property == "C12" {
+		s.gnode = &gossipNode{s: s, known: map[common.Root]bool{w.genesis.root: true}, seen: map[string]bool{}, advanced: map[string]*stateBox{}, head: w.genesis}
+	}
 	if opt.Property == "C13" {
 		s.checkGenesisLogs()
 		if s.stop {
@@ -637,6 +642,7 @@ func run(cfg *Config, opt core.Options, res *core.Result) *sim {
 	partitionUntil := uint64(0)
 	for slot := uint64(1); slot <= uint64(cfg.Slots) && !s.stop; slot++ {
 		s.step = int(slot)
+		s.curSlot = slot
 		res.Stat("events", 1)
 		res.SimTimeMs += int64(w.spec.SECONDS_PER_SLOT) * 1000
 		if cfg.has("deposits") && w.rng.Chance(1, 4) {
@@ -734,6 +740,17 @@ func run(cfg *Config, opt core.Options, res *core.Result) *sim {
 			break
 		}
 		w.attest(hb, w.head, slot)
+		if s.gnode != nil {
+			s.curSlot = slot
+			s.gossipSlot(slot, blk, parent, hb)
+			if s.stop {
+				break
+			}
+			// the per-node memo of advanced states is only needed within the slot
+			if len(s.gnode.advanced) > 64 {
+				s.gnode.advanced = map[string]*stateBox{}
+			}
+		}
 		if slot%cfg.SPE == 0 {
 			fin, _ := hb.st.FinalizedCheckpoint()
 			if fin.Epoch > 0 {
